@@ -20,6 +20,11 @@ from fractions import Fraction
 
 import z3
 
+try:
+    sys.set_int_max_str_digits(0)      # solver models may hold very long integers
+except AttributeError:
+    pass
+
 
 class PathAbort(BaseException):
     """The current path is infeasible / assumption violated / budget exhausted."""
@@ -657,7 +662,7 @@ class Engine:
         bad = False
         for name, (kind, var, flav) in self.inputs.items():
             v = z3_to_py(model.eval(var, model_completion=True))
-            if v is None:
+            if v is None or _too_long(v):
                 bad = True
                 continue
             if flav == 'dec' and not _is_decimal(v):
@@ -675,7 +680,7 @@ class Engine:
                     out = {}
                     for name, (kind, var, flav) in self.inputs.items():
                         v = z3_to_py(m2.eval(var, model_completion=True))
-                        out[name] = enc_num(v) if v is not None else None
+                        out[name] = enc_num(v) if (v is not None and not _too_long(v)) else None
                     out['_nice'] = True
                     return out, m2
             out['_unrepresentable'] = True
@@ -839,6 +844,12 @@ def _fb(z):
     if z3.is_false(z):
         return False
     return P.SymBool(z)
+
+
+def _too_long(v):
+    """numerals with thousands of digits are useless as witnesses"""
+    f = Fraction(v)
+    return f.numerator.bit_length() > 4000 or f.denominator.bit_length() > 4000
 
 
 def _is_decimal(v):
